@@ -87,6 +87,15 @@ func (e *Extractor) clone() *Extractor {
 	return newExt
 }
 
+// requirePDF reports an error when an operation that works on PDF page content
+// (fragments and layout analysis) is used on a document of another format.
+func (e *Extractor) requirePDF(op string) error {
+	if e.format != format.PDF {
+		return fmt.Errorf("%s is only supported for PDF files (format: %s)", op, e.format)
+	}
+	return nil
+}
+
 // ensureReader opens the reader if not already open.
 func (e *Extractor) ensureReader() error {
 	if e.readerOpened {
@@ -359,6 +368,10 @@ func (e *Extractor) IsCharacterLevel() (bool, error) {
 		return false, e.err
 	}
 
+	if err := e.requirePDF("IsCharacterLevel"); err != nil {
+		return false, err
+	}
+
 	if err := e.ensureReader(); err != nil {
 		return false, err
 	}
@@ -388,6 +401,10 @@ func (e *Extractor) IsCharacterLevel() (bool, error) {
 func (e *Extractor) IsMultiColumn() (bool, error) {
 	if e.err != nil {
 		return false, e.err
+	}
+
+	if err := e.requirePDF("IsMultiColumn"); err != nil {
+		return false, err
 	}
 
 	if err := e.ensureReader(); err != nil {
@@ -824,6 +841,10 @@ func (e *Extractor) Fragments() ([]text.TextFragment, []Warning, error) {
 		return nil, nil, e.err
 	}
 
+	if err := e.requirePDF("Fragments"); err != nil {
+		return nil, nil, err
+	}
+
 	if err := e.ensureReader(); err != nil {
 		return nil, nil, err
 	}
@@ -916,6 +937,10 @@ func (e *Extractor) Lines() ([]layout.Line, error) {
 		return nil, e.err
 	}
 
+	if err := e.requirePDF("Lines"); err != nil {
+		return nil, err
+	}
+
 	if err := e.ensureReader(); err != nil {
 		return nil, err
 	}
@@ -994,6 +1019,10 @@ func (e *Extractor) Lines() ([]layout.Line, error) {
 func (e *Extractor) Paragraphs() ([]layout.Paragraph, error) {
 	if e.err != nil {
 		return nil, e.err
+	}
+
+	if err := e.requirePDF("Paragraphs"); err != nil {
+		return nil, err
 	}
 
 	if err := e.ensureReader(); err != nil {
@@ -1075,6 +1104,10 @@ func (e *Extractor) Paragraphs() ([]layout.Paragraph, error) {
 func (e *Extractor) ReadingOrder() (*layout.ReadingOrderResult, error) {
 	if e.err != nil {
 		return nil, e.err
+	}
+
+	if err := e.requirePDF("ReadingOrder"); err != nil {
+		return nil, err
 	}
 
 	if err := e.ensureReader(); err != nil {
@@ -1162,6 +1195,10 @@ func (e *Extractor) ReadingOrder() (*layout.ReadingOrderResult, error) {
 func (e *Extractor) Analyze() (*layout.AnalysisResult, error) {
 	if e.err != nil {
 		return nil, e.err
+	}
+
+	if err := e.requirePDF("Analyze"); err != nil {
+		return nil, err
 	}
 
 	if err := e.ensureReader(); err != nil {
@@ -1253,6 +1290,10 @@ func (e *Extractor) Headings() ([]layout.Heading, error) {
 		return nil, e.err
 	}
 
+	if err := e.requirePDF("Headings"); err != nil {
+		return nil, err
+	}
+
 	if err := e.ensureReader(); err != nil {
 		return nil, err
 	}
@@ -1321,6 +1362,10 @@ func (e *Extractor) Lists() ([]layout.List, error) {
 		return nil, e.err
 	}
 
+	if err := e.requirePDF("Lists"); err != nil {
+		return nil, err
+	}
+
 	if err := e.ensureReader(); err != nil {
 		return nil, err
 	}
@@ -1386,6 +1431,10 @@ func (e *Extractor) Lists() ([]layout.List, error) {
 func (e *Extractor) Blocks() ([]layout.Block, error) {
 	if e.err != nil {
 		return nil, e.err
+	}
+
+	if err := e.requirePDF("Blocks"); err != nil {
+		return nil, err
 	}
 
 	if err := e.ensureReader(); err != nil {
